@@ -794,8 +794,8 @@ pub(crate) fn run(replay: Option<&str>) -> Report {
     // sequential part: every subscribe / unsubscribe point in a history
     let before = rep.states;
     let m = seq_model(&px);
-    let depth = if thorough { 7 } else { 5 };
+    let depth = if thorough { 10 } else { 6 };
     crate::verif::vx::bfs::bfs(&m, &crate::verif::vx::bfs::BfsCfg { max_depth: depth, max_secs: if thorough { 600 } else { 20 }, ..Default::default() }, &mut rep);
-    rep.notes.push(format!("c18-sequential: BFS depth {depth} over insert (accepted / rejected by import policy) / remove / peer drop / soft_reset_in / policy toggle / deferral / subscribe(snapshot) / unsubscribe: {} states; the subscriber's folded view is compared with the RIB after every step", rep.states - before));
+    rep.notes.push(format!("c18-sequential: BFS depth {depth} over insert (accepted / rejected by import policy) / remove / peer drop / GR drop / reconnect / stale purge / timer drop / LLGR start / LLGR purge / soft_reset_in / policy toggle / deferral / subscribe(snapshot) / unsubscribe: {} states; the subscriber's folded view is compared with the RIB after every step", rep.states - before));
     rep
 }
